@@ -145,7 +145,7 @@ func TestCheck(t *testing.T) {
 			return
 		}
 	}
-	if !ev.Rapid(t, col, "api-repeat-concurrent-permute", col.N(150, 20000), genCase, check, known) {
+	if !ev.Rapid(t, col, "api-repeat-concurrent-permute", col.N(100, 20000), genCase, check, known) {
 		return
 	}
 	checkP := func(c PCase) error {
@@ -157,7 +157,7 @@ func TestCheck(t *testing.T) {
 		col.Sample("sqlite/hcl-block-permutation", c)
 		return err
 	}
-	if !ev.Rapid(t, col, "hcl-block-permutation", col.N(300, 60000), genP, checkP, knownP) {
+	if !ev.Rapid(t, col, "hcl-block-permutation", col.N(200, 60000), genP, checkP, knownP) {
 		return
 	}
 	checkC := func(c PCase) error {
